@@ -389,7 +389,7 @@ T dilate_add(T a, T b) {
     if (b == std::numeric_limits<T>::min()) return b;
     const T r = a + b;
     // if overflow, saturate
-    if (r < std::max<T>(a,b)) return std::numeric_limits<T>::max();
+    if (b > 0 && r < a) return std::numeric_limits<T>::max();
     return r;
 }
 
